@@ -221,6 +221,11 @@ class Translator:
             for x in reversed(args):
                 r = f"(XPair {T(x)} {r})"
             return f"(XPoly {r})"
+        if short in ("max", "min", "maximum", "minimum") and len(args) >= 2 and not is_method:
+            r = "XNonneg"                               # builtin max(a, b) / tl.maximum(a, b): one of the arguments' entries
+            for x in reversed(args):
+                r = f"(XPair {T(x)} {r})"
+            return f"(XSub {r})"
         if short in PASS_THROUGH:
             if is_method and isinstance(e.func, ast.Attribute) and short in ("copy", "tolist", "reshape", "transpose"):
                 return f"(XSub {T(e.func.value)})"
